@@ -78,7 +78,7 @@ def draw_handler_state(vc, HS, basetime, name='s', retries_opt=False):
 @harness('G1', targets=[f'{PROG}.HandlerState.finished', f'{PROG}.HandlerState.sleeping',
                         f'{PROG}.HandlerState.awakened', f'{PROG}.HandlerState.runtime',
                         f'{PROG}.HandlerState.from_storage'],
-         props=['C02', 'C11'],
+         props=['C02', 'C11', 'C10', 'C09', 'C03'],
          clauses=['finished_def', 'sleeping_def', 'awakened_not_before_delay', 'awakened_when_due', 'runtime_def',
                   'from_storage_fields', 'from_storage_finished', 'from_storage_restart_independent'],
          canaries=['canary.never_sleeping', 'canary.never_awakened', 'canary.stored_never_finished'],
@@ -185,7 +185,7 @@ class _HandlerBoom(Exception):
     pass
 
 
-@harness('G2', targets=[f'{PROG}.HandlerState.with_outcome'], props=['C02', 'C11'],
+@harness('G2', targets=[f'{PROG}.HandlerState.with_outcome'], props=['C02', 'C11', 'C10', 'C09', 'C03'],
          clauses=['retries_incremented', 'success_iff_final_without_exception', 'failure_iff_final_with_exception',
                   'delayed_is_now_plus_delay', 'started_unchanged', 'stopped_iff_final', 'subrefs_accumulate',
                   'not_awakened_before_delay', 'frame'],
@@ -330,7 +330,7 @@ def all_active_finished(states):
 
 @harness('G3', targets=[f'{PROG}.State.done', f'{PROG}.State.delays', f'{PROG}.State.delay', f'{PROG}.State.with_outcomes',
                         f'{PROG}.State.with_handlers', f'{PROG}.State.with_purpose'],
-         props=['C02', 'C06', 'C03', 'C14', 'C11'],
+         props=['C02', 'C06', 'C03', 'C14', 'C11', 'C10', 'C09'],
          prop_clauses={'C14': ['with_purpose_repurposes']},     # a superseded resume cycle must not lose its finished handlers' records
          clauses=['done_iff_all_active_finished', 'delays_empty_iff_all_active_finished', 'delays_cover_remaining', 'delay_is_min',
                   'with_outcomes_unknown_raises', 'with_outcomes_applies_exactly', 'with_handlers_activates_selected',
@@ -572,7 +572,7 @@ def X3(vc):
 
 
 # ----------------------------------------------------------------------------------------------- X2
-@harness('X2', targets='kopf._core.actions.execution.execute_handlers_once', props=['C02', 'C11'],
+@harness('X2', targets='kopf._core.actions.execution.execute_handlers_once', props=['C02', 'C11', 'C09', 'C10', 'C20'],
          clauses=['lifecycle_gets_awakened_only', 'invokes_only_awakened_members', 'state_of_that_handler',
                   'each_at_most_once', 'executes_the_plan', 'outcomes_by_id', 'passes_context', 'errors_propagate'],
          canaries=['canary.invokes_all_handlers', 'canary.never_raises'],
